@@ -46,8 +46,7 @@ def k2 (t : Tokens) : String :=
     | fuel+1 =>
       let r := recv1 msize maxLen specRegistry s
       let consumed := s.length - r.rest.length
-      let acc := acc ++ showOutcome (toString i) r.out ++ [s!"c{i}={consumed}"] ++
-        [s!"a{i}={r.allocs.foldl max 0}"]
+      let acc := acc ++ showOutcome (toString i) r.out ++ [s!"c{i}={consumed}"]
       match r.out with
       | .connErr => acc
       | _ => go fuel (i+1) r.rest acc
